@@ -417,3 +417,12 @@ Definition exit_routing (client sentFirstPacket ampl : bool) (ce : closeError) (
   if expiry <=? elapsed then 0 else routing_after (close_action client sentFirstPacket ampl ce).
 (** what the API objects were closed with *)
 Definition exit_fanout (ce : closeError) : errk := mapped_err ce.
+
+(** handleCloseError closes the datagram queue whenever it exists — always: preSetup allocates it whatever
+    Config.EnableDatagrams says, because SendDatagram is gated on the PEER's max_datagram_frame_size, not on the own
+    flag. A fan-out that closes the queue only if the own flag is set (seeded change C17-f): *)
+Definition fanout_dg_if_enabled (enableDatagrams : bool) (a : api) (e : errk) : api :=
+  let f := fanout a e in
+  if enableDatagrams then f else
+  {| a_mapErr := a_mapErr f; a_dgErr := a_dgErr a; a_rstreams := a_rstreams f; a_sstreams := a_sstreams f;
+     a_canOpen := a_canOpen f; a_canAccept := a_canAccept f; a_rcvQueued := a_rcvQueued f; a_sendRoom := a_sendRoom f |}.
